@@ -318,6 +318,8 @@ class ImplV(AbsObj):
     def getattr_(self, attr, interp):
         def call(a, k):
             self.sim.io_events.append((attr, len(a)))
+            if hasattr(self.sim, 'io_args'):
+                self.sim.io_args.append((attr, list(a)))
             if attr == 'terminal_input':
                 return LineV(interp)
             return Unk(f'impl.{attr}')
